@@ -37,7 +37,7 @@ FLOORS = {
     "quick": {"c07.histories": 100, "c07.commits_compared": 500, "c07.cancels_compared": 60, "c07.api_checks": 20000,
               "c07.pattern_delete_nonfirst_merge_update": 20, "c07.op.delete_docnum": 150, "c07.op.undelete": 40,
               "c07.op.delete_by_query": 100, "c07.op.delete_by_term": 100, "c07.op.update": 300, "c07.delete_count_checks": 200,
-              "c07.buffered_sessions": 20, "c07.nontrivial": 60},
+              "c07.buffered_sessions": 20, "c07.nontrivial": 60, "c07.topn.searches": 1500},
     "thorough": {"c07.histories": 1800, "c07.commits_compared": 9000, "c07.cancels_compared": 1000, "c07.api_checks": 400000,
                  "c07.pattern_delete_nonfirst_merge_update": 300, "c07.op.delete_docnum": 2500, "c07.op.undelete": 800,
                  "c07.op.delete_by_query": 2500, "c07.op.delete_by_term": 2500, "c07.op.update": 7000,
@@ -1017,6 +1017,85 @@ def dup_key_case(ctx, rng, idx):
     ctx.guard("c07.dupkey", w, body)
 
 
+def topn_deleted_case(ctx, rng, idx):
+    """Deleted documents in the way of a block-skipping top-N search: a few hundred documents share frequent words (posting
+    lists of many small blocks); the STRONGEST documents (and documents at block starts) are then deleted or replaced
+    through update_document(); every limited scored search must return live documents only - the best live ones - and
+    len(results) must be the number of live matching documents."""
+    from whoosh import fields, query, scoring
+    from whoosh.codec.whoosh3 import W3Codec
+    from whoosh.filedb.filestore import RamStorage
+    bl = rng.choice([4, 8, 16, 32])
+    n = rng.randint(120, 360)
+    words = ["alfa", "bravo", "charlie"]
+    schema = fields.Schema(id=fields.ID(stored=True, unique=True), t=fields.TEXT(stored=True))
+    ix = RamStorage().create_index(schema)
+    docs = {}
+    w = ix.writer(codec=W3Codec(blocklimit=bl))
+    for i in range(n):
+        strong = rng.random() < 0.06 or (i % bl == 0 and rng.random() < 0.5)
+        toks = []
+        for wd in words:
+            if rng.random() < 0.75:
+                toks += [wd] * (rng.randint(6, 12) if strong else rng.randint(1, 2))
+        toks += ["filler"] * rng.randint(0, 6)
+        rng.shuffle(toks)
+        docs[str(i)] = {"t": " ".join(toks), "strong": strong, "version": 0}
+        w.add_document(id=str(i), t=" ".join(toks))
+    w.commit()
+    wit = {"case_idx": idx, "docs": n, "blocklimit": bl}
+    victims = [k for k, d in docs.items() if d["strong"]]
+    rng.shuffle(victims)
+    w = ix.writer(codec=W3Codec(blocklimit=bl))
+    deleted, updated = [], []
+    for k in victims[:max(2, len(victims) * 2 // 3)]:
+        if rng.random() < 0.6:
+            w.delete_by_term("id", k)
+            del docs[k]
+            deleted.append(k)
+        else:
+            docs[k] = {"t": "filler " + rng.choice(words), "strong": False, "version": 1}
+            w.update_document(id=k, t=docs[k]["t"])
+            updated.append(k)
+    w.commit(merge=False)
+    wit.update(deleted=deleted[:20], updated=updated[:20])
+    ctx.count("c07.topn.cases")
+    try:
+        for wname, wobj in (("BM25F", scoring.BM25F()), ("TF_IDF", scoring.TF_IDF()), ("Frequency", scoring.Frequency())):
+            with ix.searcher(weighting=wobj) as s:
+                qs = [query.Term("t", wd) for wd in words]
+                qs += [query.Or([query.Term("t", "alfa"), query.Term("t", "bravo")]),
+                       query.And([query.Term("t", "alfa"), query.Term("t", "charlie")]),
+                       query.AndMaybe(query.Term("t", "bravo"), query.Term("t", "charlie"))]
+                for q in qs:
+                    w2 = dict(wit, query=repr(q), weighting=wname)
+                    ok, full = ctx.guard("c07.topn", w2, lambda: [(h["id"], h["t"], h.score) for h in s.search(q, limit=None)])
+                    if not ok:
+                        continue
+                    for k in (1, 2, 3, 5, 10):
+                        ctx.count("c07.topn.searches")
+                        ok, res = ctx.guard("c07.topn", dict(w2, limit=k), lambda: (lambda r: ([(h["id"], h["t"], h.score) for h in r], len(r)))(s.search(q, limit=k)))
+                        if not ok:
+                            break
+                        top, total = res
+                        dead = [(i_, t_) for i_, t_, _ in top if i_ not in docs or docs[i_]["t"] != t_]
+                        if dead:
+                            ctx.fail("c07.topn", "deleted-document-returned-by-limited-search", dict(w2, limit=k, hits=top[:10]),
+                                     "hit %r is a deleted / replaced document" % (dead[0],))
+                            break
+                        if total != len(full):
+                            ctx.fail("c07.topn", "len(limited results)", dict(w2, limit=k), "len=%d, %d live documents match" % (total, len(full)))
+                            break
+                        best = sorted((sc for _, _, sc in full), reverse=True)[:k]
+                        if [round(sc, 6) for _, _, sc in top] != [round(sc, 6) for sc in best]:
+                            ctx.fail("c07.topn", "limited-search-misses-best-live-documents", dict(w2, limit=k, hits=top[:10], best_scores=best),
+                                     "scores of the top %d differ from the best live scores" % k)
+                            break
+    finally:
+        ix.close()
+    ctx.case(("topn-deleted", bl, bool(deleted), bool(updated)), bool(deleted or updated))
+
+
 def run(ctx):
     from vf import model
     model.check_analysis()
@@ -1025,6 +1104,8 @@ def run(ctx):
         ctx.reseed_global(idx)
         if idx % 4 == 1:
             dup_key_case(ctx, ctx.rng(idx, "dupkey"), idx)
+        if idx % 4 == 3:
+            topn_deleted_case(ctx, ctx.rng(idx, "topn-deleted"), idx)
         h = History(ctx, rng, idx)
         h.run()
         ctx.count("c07.histories")
